@@ -10,9 +10,14 @@ git apply "$P" || { echo "patch does not apply"; exit 2; }
 if [ "$D" != "-" ]; then
   PYTHONWARNINGS=ignore PYTHONPATH=/repo/src timeout 300 /venv/bin/python "$D" >/dev/null 2>&1; echo "demo on changed tree: exit $?"
 fi
+# evidence files describe the unchanged tree: keep them aside while the changed tree is checked
+EVB=$(mktemp -d /root/scratch/evb.XXXXXX 2>/dev/null || mktemp -d)
+cp -p /verif/evidence/*.json "$EVB"/ 2>/dev/null
 for c in "$@"; do
   out=$(cd /verif && VERIF_TIER=${TIER:-quick} ./check $c --tier ${TIER:-quick} 2>&1); rc=$?
   echo "== $c exit=$rc"; echo "$out" | grep -E "VIOLATION|BROKEN" | cut -c1-260 | head -${NV:-4}
+  if [ -f "$EVB/$c.json" ]; then cp -p "$EVB/$c.json" /verif/evidence/$c.json; else rm -f /verif/evidence/$c.json; fi
 done
+rm -rf "$EVB"
 git -C /repo checkout -- . ; git -C /repo status --porcelain
 rm -rf /tmp/hio* /root/hio 2>/dev/null
